@@ -249,7 +249,7 @@ pub fn generate(seed: u64, tier: Tier) -> Scenario {
         }
         _ => ops.push(Op::Select(strategy, off_ids.clone())),
     }
-    Scenario { knobs, world: w, ops, rng: sess::gen_rng_plan(&mut rr), hash_seed: rh.next(), profile: format!("c08/{}/{:?}/tight{}", prof, strategy, tight) }
+    Scenario { knobs, world: w, ops, rng: sess::gen_rng_plan(&mut rr), hash_seed: rh.next(), profile: format!("c08/{}/{:?}/tight{}", prof, strategy, tight), alt_values: 0 }
 }
 
 fn name_key(n: &[u8]) -> (usize, Vec<u8>) {
